@@ -528,8 +528,9 @@ class Batch:
                     kind = 'x-state' if name not in d.out_ports else 'x-after-write'
                 else:
                     kind = 'x-consequence' if tainted else 'mismatch'
-                if kind != 'x-at-powerup' and tainted:
-                    stop = True       # later differences are consequences of the same unknown
+                if tainted and (kind != 'x-at-powerup' or name in feedback):
+                    stop = True       # the body read an unknown and the two sides now differ in something it reads / holds:
+                                      # later differences are consequences of the same unknown
                 if (name, kind) in reported:
                     continue
                 reported.add((name, kind))
